@@ -137,9 +137,7 @@ def qed_names(text: str) -> list[str]:
 
 def requires(text: str) -> list[str]:
     mods = []
-    for m in re.finditer(r"From\s+Alp\s+Require\s+(?:Import|Export)\s+([^.]+(?:\.[A-Za-z0-9_]+)*)\.\s", text):
-        pass
-    for m in re.finditer(r"From\s+Alp\s+Require\s+(?:Import|Export)\s+((?:[A-Za-z0-9_.]+\s*)+)\.(?:\s|$)", text):
+    for m in re.finditer(r"From\s+Alp\s+Require\s+(?:Import\s+|Export\s+)?([A-Za-z0-9_.\s]+?)\.(?=\s|$)", text):
         mods += m.group(1).split()
     return mods
 
